@@ -1,10 +1,14 @@
 #!/bin/bash
-# usage: try_mutant.sh <patch.diff> <prop> [<prop> ...]  — apply to /repo, run the checks, undo
+# usage: try_mutant.sh <patch.diff> <prop> [<prop> ...]  — apply to the scratch worktree /root/work/mutrepo (never to /repo), run the checks
+# against it (SCODA_REPO), undo, regenerate Gen from /repo
 patch=$1; shift
-cd /repo || exit 2
-git apply "$patch" || { echo "patch does not apply"; exit 2; }
+MUT=${MUTREPO:-/root/work/mutrepo}
+[ -d $MUT ] || git -C /repo worktree add -q --detach $MUT HEAD
+git -C $MUT checkout -q --detach $(git -C /repo rev-parse HEAD) && git -C $MUT checkout -- .
+git -C $MUT apply "$patch" || { echo "patch does not apply"; exit 2; }
 for p in "$@"; do
-  out=$(cd /verif && ./check $p ${TIER:+--tier $TIER} 2>&1 | grep -E "^VIOLATION|Traceback|Error" | head -2)
+  out=$(cd /verif && SCODA_REPO=$MUT ./check $p ${TIER:+--tier $TIER} 2>&1 | grep -E "^VIOLATION|Traceback|Error" | head -2)
   echo "$p -> ${out:-MISSED}"
 done
-git checkout -- .
+git -C $MUT checkout -- .
+/venv/bin/python /verif/tools/gen_lean.py > /dev/null
